@@ -94,7 +94,8 @@ func comps(s string) []string {
 func locString(segs []string) string { return "/" + strings.Join(segs, "/") }
 
 var baseSegs = [][]string{{}, {"tmp"}, {"tmp", "a"}}
-var mountSets = [][][]string{{{}}, {{"tmp"}}, {{"tmp", "a"}}, {{"tmp"}, {"tmp", "a"}}, {{"a"}, {"ab"}}}
+var mountSets = [][][]string{{{}}, {{"tmp"}}, {{"tmp", "a"}}, {{"tmp"}, {"tmp", "a"}}, {{"a"}, {"ab"}},
+	{{}, {"tmp"}}, {{}, {"tmp", "a"}, {"a"}}}
 
 // ------------------------------------------------------------------ leg rp
 
